@@ -236,6 +236,8 @@ fn jwt_signing_keys(rel: &str, cfg_key: &str) -> Vec<String> {
     match rel {
         "same" => vec![cfg_key.to_string()],
         "other" => vec!["an-unrelated-key".to_string()],
+        // the key of the outer fang of a stacked configuration (there the very same token is presented to both fangs: valid for the outer one)
+        "outer" => vec![outer_secret(cfg_key)],
         "empty" => vec![String::new()],
         "near" => {
             let cs: Vec<char> = cfg_key.chars().collect();
@@ -492,7 +494,7 @@ fn run_jwt(scn: &Value) -> Value {
     let mut statuses: Vec<i64> = vec![];
     for (t, payload) in &variants {
         let mut lines = jwt_transport(s(&tok["via"]), s(&cfg["getter"]), t);
-        if s(&cfg["mount"]) == "stacked" { lines.push(("X-Outer".to_string(), outer_token(cfg, &secret).into_bytes())) }
+        if s(&cfg["mount"]) == "stacked" { lines.push(("X-Outer".to_string(), if s(&tok["skey"]) == "outer" { t.clone().into_bytes() } else { outer_token(cfg, &secret).into_bytes() })) }
         let bytes = request_bytes(method, path, &lines);
         let o = exchange(&router, &bytes, method == "HEAD");
         let value = lines.first().map(|(k, v)| format!("{k}: {}", show(v))).unwrap_or_else(|| "(no header)".into());
@@ -577,7 +579,7 @@ fn gen_jwt(rng: &mut Rng) -> Value {
     let (exp, nbf, iat) = (c(rng, "future"), c(rng, "past"), c(rng, "past"));
     json!({"mod": "jwt",
         "cfg": {"alg": alg, "key": *rng.pick(&["k1", "k2", "k3"]), "getter": *rng.pick(&["default", "default", "custom"]), "ptype": *rng.pick(&["value", "value", "typed"]), "mount": *rng.pick(&["top", "nested", "stacked"])},
-        "tok": {"skey": mostly(rng, "same", &["same", "other", "near", "empty"]), "salg": salg, "halg": halg,
+        "tok": {"skey": mostly(rng, "same", &["same", "other", "near", "empty", "outer"]), "salg": salg, "halg": halg,
                 "typ": mostly(rng, "JWT", &["JWT", "absent", "jwt", "other", "num"]), "cty": mostly(rng, "absent", &["absent", "JWT", "other"]),
                 "hshape": mostly(rng, "issue", &["issue", "algfirst", "extra", "ws"]),
                 "exp": exp, "nbf": nbf, "iat": iat, "pay": pay,
